@@ -1017,6 +1017,20 @@ def translate_fn(node, pyname, known, extra_params=()):
     return ''.join(a + '\n\n' for a in tr.aux), (f'def {lean} (p : Prims δ Du κ α ε χ η){sig} : M (Obj δ Du κ α ε χ) ({lty(rty)}) Unit :=\n{ind(body)}')
 
 
+def check_not_overridden(fsm, name):
+    """the translated method must be the one that runs in the library's own FSMs"""
+    import edzed.blocklib.fsms, edzed.blocklib.sblocks2       # noqa: F401  (defines Timer, InputExp)
+    todo, seen = list(fsm.FSM.__subclasses__()), set()
+    while todo:
+        sub = todo.pop()
+        if sub in seen:
+            continue
+        seen.add(sub)
+        todo.extend(sub.__subclasses__())
+        if (sub.__module__ or '').startswith('edzed') and name in sub.__dict__:
+            raise Untranslatable(f'{sub.__name__} overrides {name}')
+
+
 def check_init_subclass(fsm):
     """`__init_subclass__` must build the tables (declared assumption, checked on the AST)"""
     node = method_ast(fsm.FSM, '__init_subclass__')
@@ -1061,14 +1075,21 @@ def main_fsmtables(outfile, write_if_changed):
 
     def build_tables_node():
         check_init_subclass(fsm)
+        check_not_overridden(fsm, '_build_tables')
         return method_ast(fsm.FSM, '_build_tables')
 
-    emit('_check_state', lambda: method_ast(fsm.FSM, '_check_state'), 'fsm.FSM._check_state')
+    def plain(name):
+        def get():
+            check_not_overridden(fsm, name)
+            return method_ast(fsm.FSM, name)
+        return get
+
+    emit('_check_state', plain('_check_state'), 'fsm.FSM._check_state')
     emit('add_transition', add_transition_node, 'fsm.FSM._build_tables: add_transition', needs=('_check_state',))
     emit('_build_tables', build_tables_node, 'fsm.FSM._build_tables', needs=('_check_state', 'add_transition'))
     emit('__init__', lambda: method_ast(fsm.FSM, '__init__'), 'fsm.FSM.__init__')
-    emit('_send_events', lambda: method_ast(fsm.FSM, '_send_events'), 'fsm.FSM._send_events')
-    emit('_run_cb', lambda: method_ast(fsm.FSM, '_run_cb'), 'fsm.FSM._run_cb')
-    emit('_event', lambda: method_ast(fsm.FSM, '_event'), 'fsm.FSM._event')
+    emit('_send_events', plain('_send_events'), 'fsm.FSM._send_events')
+    emit('_run_cb', plain('_run_cb'), 'fsm.FSM._run_cb')
+    emit('_event', plain('_event'), 'fsm.FSM._event')
     out.append('end Edzed.Gen.TrFT\n')
     write_if_changed(outfile, '\n'.join(out))
